@@ -24,8 +24,10 @@ Oracle per row:
   positions; ``NoSuchColumnError`` for a selected element is a violation;
 * string keys (result.keys(), explicit label names, column names, tablename_column
   forms): a returned value must be the expected value of a position that carries that
-  name; a key that result.keys() lists twice for different values must raise; an
-  explicit label / key carried by exactly one position must resolve;
+  name; a user-visible name that result.keys() lists twice for different values must
+  raise; an explicit label / key carried by exactly one position (and not being the
+  ``selected_columns`` key of another one - ambiguous by design, see
+  test_keyed_accessor_composite_conflict_2) must resolve;
 * ``getattr(row, name)`` agrees with ``row._mapping[name]``.
 
 Guards: lookups by objects that are not in the statement are never made; strings that
@@ -266,7 +268,7 @@ def canon_names(el, key):
     return s
 
 
-def check_rows(ctx, sa, rows, keys, els, decoders, extra_objs, desc, cached, textual=False):
+def check_rows(ctx, sa, rows, keys, els, decoders, extra_objs, desc, cached, textual=False, proxy_keys=None):
     """rows: list of Row; els: list of El (first branch for unions); decoders: list of
     (decode, els_of_branch) used to find the branch + row number from position 0."""
     exc = sa.exc
@@ -369,7 +371,11 @@ def check_rows(ctx, sa, rows, keys, els, decoders, extra_objs, desc, cached, tex
                     ctx.violation("ambiguous-string-key-returned-value" + (":text" if textual else ""),
                                   f"{tag}: keys() lists {s!r} at {userpos} (different values) but lookup returned {got}", dict(desc, key=s, keys=list(keys)))
             else:
-                must = len(carriers) == 1 and (keys[carriers[0]] == s or els[carriers[0]].label == s)
+                # test_resultset.py (test_keyed_accessor_composite_conflict_2) fixes by design that a string
+                # which is the result name of one column and the .key / selected_columns key of another
+                # is ambiguous: refusing is then accepted
+                also = [j for j in range(n) if proxy_keys is not None and proxy_keys[j] == s and j not in carriers]
+                must = len(carriers) == 1 and not also and (keys[carriers[0]] == s or els[carriers[0]].label == s)
                 if must:
                     kd = els[carriers[0]].kind
                     ctx.violation("dedupe-proxy-key-shadows-result-key" if shadowed(s, carriers, els) else "unambiguous-string-key-raised:" + raised + ":" + kd + (":text" if textual else ""),
@@ -476,7 +482,7 @@ def run(ctx):
     engines = [(ll, setup_engine(sa, tables, md, ll)) for ll in LABEL_LENGTHS]
     rng = ctx.rng
     hows = ["plain", "plain", "plain", "subquery", "cte", "union", "text_pos", "text_name", "text_plain"]
-    ncases = ctx.pick({"quick": 50, "thorough": 2500})
+    ncases = ctx.pick({"quick": 50, "thorough": 1000})
     try:
         for k in range(ncases):
             if not ctx.budget_ok():
@@ -509,7 +515,12 @@ def run(ctx):
                     hit = len(eng._compiled_cache) == n0
                 if rnd == 1 and hit:
                     ctx.count("cached_executions")
-                check_rows(ctx, sa, rows, keys, els, built["decoders"], built["extra"], desc, cached=(rnd == 1 and hit), textual=built["textual"])
+                try:
+                    pk = list(built["stmt"].selected_columns.keys())
+                    pk = pk if len(pk) == len(els) else None
+                except Exception:
+                    pk = None
+                check_rows(ctx, sa, rows, keys, els, built["decoders"], built["extra"], desc, cached=(rnd == 1 and hit), textual=built["textual"], proxy_keys=pk)
                 if rnd == 0:
                     names = [kk for kk in keys]
                     allnames = [nm for i, e in enumerate(els) for nm in canon_names(e, keys[i])]
